@@ -340,6 +340,8 @@ def feature_tags(sc, group, outcome, journal, nsteps):
     f = []
     if any(c in sc['name'] for c in ' \'"$;&|*?()`') or sc['name'].startswith('-'):
         f.append('odd-name')
+    if sc.get('name_carrier'): f.append('name-given-as-' + sc['name_carrier'])
+    if sc.get('flag_carrier'): f.append('keep-flag-as-' + sc['flag_carrier'])
     if journal:
         f.append('crash-inside-transaction')
     if outcome[0] == 'table' and outcome[2]:
